@@ -468,6 +468,7 @@ class ObjectBase(EntityContainer):
     @last_focus.setter
     def last_focus(self, value: str):
         self._last_focus = value
+        self.workspace.update_attribute(self, "attributes")
 
     @property
     def n_cells(self) -> int | None:
